@@ -66,6 +66,10 @@ var c08IllTyped = []struct{ name, patch, stmt string }{
 	{"meta-var-without-type", "@@\nvar x\n@@\n-foo(x)\n+bar(x)\n", "foo(1)"},
 	{"meta-var-trailing-comma", "@@\nvar x, expression\n@@\n-foo(x)\n+bar(x)\n", "foo(1)"},
 	{"meta-not-var", "@@\nconst x expression\n@@\n-foo(x)\n+bar(x)\n", "foo(1)"},
+	// a whole file instead of a statement (prefix "FILE:"): the import sorter of
+	// golang.org/x/tools loops for ever on it (finding F28); kept out of the
+	// families that enumerate every prefix and substitution of their inputs
+	{"line-directive-beyond-eof-commented-import", "@@\nvar T identifier\n@@\n-func vfOld3(x T) {\n+func vfNew3(x T) {\n   ...\n }\n", "FILE://line /gen/src/other.go:100\npackage sample\n\nimport (\n\t\"vf/b2\" // bee\n\t\"example.com/alpha\"\n)\n\nfunc parse0(k func() error) error {\n\tfor a := 0; idx < 10; res++ {\n\t}\n}\n\nfunc (n *Node) render2(w func() error) error {\n}\n\nfunc vfOld3(x string) {\n}\n"},
 	{"only-header", "@@\n@@\n", "foo(1)"},
 	{"header-then-eof", "@@\n", "foo(1)"},
 	{"context-only", "@@\n@@\n foo(1)\n", "foo(1)"},
@@ -443,6 +447,9 @@ func (c08) Gen(env *Env, seed uint64, tier string, i int) *Case {
 			body = "if ok {\n\t\t" + it.stmt + "\n\t}"
 		}
 		inputs = []CorpusFile{{Name: "t.go", Data: []byte("package sample\n\nfunc f() {\n\t" + body + "\n}\n")}}
+		if strings.HasPrefix(it.stmt, "FILE:") {
+			inputs[0].Data = []byte(strings.TrimPrefix(it.stmt, "FILE:"))
+		}
 		c.Extra["what"] = "ill-typed " + it.name
 		c.Extra["key"] = it.name
 	}
